@@ -21,7 +21,7 @@ def strip_comments(src):
 def statements(path):
     code = strip_comments(open(path).read())
     res = {}
-    for m in re.finditer(r'^(Theorem|Corollary|Lemma|Example)\s+([A-Za-z0-9_\']+)(.*?)(?:\.\s*\n\s*Proof\b|:=)', code, re.S | re.M):
+    for m in re.finditer(r'^(Theorem|Corollary|Lemma|Example)\s+([A-Za-z0-9_\']+)(.*?)(?:\.\s+Proof\b|:=)', code, re.S | re.M):
         res[m.group(2)] = hashlib.sha256(re.sub(r'\s+', ' ', m.group(3)).strip().encode()).hexdigest()[:24]
     return res
 
